@@ -118,6 +118,10 @@ def run(ctx):
             strings += fixed.get(t, [])
             if t in ("INT", "QTY", "PRICE", "SEQNUM", "DAYOFMONTH"):
                 strings += ["12345678901234567890", "-0", "00031", "31 ", "1,000", "１２", "1\n", "\t1", "0x10", "1__0", "Infinity", "NaN", "1E5", "1.5e-3"]
+            if t in ("INT", "SEQNUM", "NUMINGROUP", "DAYOFMONTH", "LENGTH", "FLOAT", "QTY", "PRICE", "PRICEOFFSET", "AMT", "PERCENTAGE"):
+                # magnitudes around and beyond the range of a double and beyond Python's int() digit limit
+                big = ["9" * 25, "1" + "0" * 308, "9" * 308, "9" * 309, str(2 ** 1024), "9" * 400, "1" * 4300, "1" * 4301, "7" * 6000]
+                strings += big + ["-" + x for x in big[:6]] + ["+" + big[3], big[3] + ".", big[3] + ".5", "0." + "0" * 400 + "1", big[3] + "x", " " + big[5]]
             for sv in strings:
                 recs.append({"id": "v%d" % n, "dict": dname, "tag": f.tag, "type": t, "s": sv, "soh": "\x01", "enums": [], "special": ""})
                 n += 1
